@@ -16,6 +16,11 @@ use serde::Serialize;
 use serde_json::{json, Value};
 use std::io::{BufRead, Write};
 
+/// for cases generated with custom_scalars_module = crate::scalars
+pub mod scalars {
+    pub type Date = String;
+}
+
 fn resp<Q: GraphQLQuery>(v: Value) -> Value
 where
     Q::ResponseData: Serialize + std::fmt::Debug,
